@@ -77,7 +77,8 @@ pub struct SchedStats {
 }
 
 #[derive(Debug, Clone, Copy, PartialEq, Eq, Serialize, Deserialize)]
-pub enum Fatal { Deadlock, StepBound, UnexpectedWaker }
+pub enum Fatal { Deadlock, StepBound, UnexpectedWaker, /// the hook reported notify_all + unlock, but the woken waiter never came back from wait()
+    LostHandoff }
 
 struct Inner {
     th: Vec<St>,
@@ -88,6 +89,7 @@ struct Inner {
     condq: VecDeque<usize>,
     expected: usize,
     awaiting: bool,
+    awaiting_since: Option<std::time::Instant>,
     pending_owner: Option<usize>,
     rng: Rng,
     strategy: Strategy,
@@ -155,7 +157,7 @@ impl Sched {
         let s = Arc::new(Sched {
             m: Mutex::new(Inner {
                 th: vec![St::NotStarted; nb_threads], phase: vec![Phase::Idle; nb_threads], current: None, owner: None,
-                woken: VecDeque::new(), condq: VecDeque::new(), expected: nb_threads, awaiting: false, pending_owner: None,
+                woken: VecDeque::new(), condq: VecDeque::new(), expected: nb_threads, awaiting: false, awaiting_since: None, pending_owner: None,
                 rng, strategy, prio, last: None, schedule: vec![], enabled_masks: vec![], stats: SchedStats::default(), done: nb_threads == 0, fatal: None, max_steps,
                 aborted: false, states_seen: Default::default(),
             }),
@@ -300,7 +302,15 @@ impl Sched {
         g.th[me] = St::Parked(p);
         if g.current == Some(me) { g.current = None; }
         self.decide(&mut g);
-        while g.current != Some(me) { g = self.cv.wait(g).unwrap(); }
+        while g.current != Some(me) {
+            let (g2, _) = self.cv.wait_timeout(g, std::time::Duration::from_millis(250)).unwrap();
+            g = g2;
+            // a hand-off of the critical mutex to a woken waiter takes microseconds; if it has not happened after seconds of
+            // wall-clock time the wake-up was never delivered (e.g. notify_all is not really called where the hook says so)
+            if g.awaiting {
+                match g.awaiting_since { None => g.awaiting_since = Some(std::time::Instant::now()), Some(t) => if t.elapsed().as_secs_f64() > 6.0 && g.fatal.is_none() { self.fatal(&mut g, Fatal::LostHandoff); } }
+            } else { g.awaiting_since = None; }
+        }
     }
 
     fn yield_at(&self, me: usize, kind: u8) {
